@@ -177,13 +177,17 @@ def run(ctx):
     ins, outs = [], []
     for _ in range(40 if ctx.tier == "quick" else 600):
         d = tempfile.mkdtemp(prefix="drv.", dir=wd)
-        args, desc = [], []
+        args, desc, stale = [], [], []
         for i in range(r.randint(0, 5)):
-            kind = r.choice(["good", "good", "bad", "missing", "unwritable", "devfull", "foi", "badfoi"])
+            kind = r.choice(["good", "good", "stale", "bad", "missing", "unwritable", "devfull", "foi", "badfoi"])
             name = "f%d.%s" % (i, "foi" if kind in ("foi", "badfoi") else "fo")
             isfo = not name.endswith(".foi")
             if kind != "missing":
                 open(os.path.join(d, name), "w").write(badsrc if kind in ("bad", "badfoi") else good.replace("f ()", "f%d ()" % i))
+            if kind == "stale":
+                # an older, LONGER gen file is in the way: it must be replaced, not written over
+                open(os.path.join(d, "gen_f%d.go" % i), "w").write("// STALE-CONTENT of an earlier run\n" * 400)
+                stale.append("gen_f%d.go" % i)
             if kind == "unwritable":
                 os.makedirs(os.path.join(d, "gen_f%d.go" % i))
             if kind == "devfull":
@@ -196,7 +200,15 @@ def run(ctx):
             desc.append("(%s %s %s %s %s)" % (name, str(isfo).lower(), str(kind != "missing").lower(),
                                              str(kind not in ("bad", "badfoi")).lower(), str(kind not in ("unwritable", "devfull")).lower()))
         rc, out, err = run_fc(fc, args, d)
-        written = [a for a in args if a.endswith(".fo") and os.path.isfile(os.path.join(d, "gen_" + a[:-3] + ".go"))]
+        def fresh(gname):
+            # written by THIS run: exists, and (if an older file was in the way) no longer starts with it
+            p = os.path.join(d, gname)
+            return os.path.isfile(p) and not (gname in stale and open(p).read().startswith("// STALE-CONTENT"))
+        written = [a for a in args if a.endswith(".fo") and fresh("gen_" + a[:-3] + ".go")]
+        for gname in stale:
+            p = os.path.join(d, gname)
+            if fresh(gname) and "STALE-CONTENT" in open(p).read():
+                ctx.direct.append({"kind": "a gen file written by this run still holds bytes of an older, longer file (the destination is not truncated)", "file": gname, "args": args})
         diag = "-"
         if rc != 0:
             mm = re.findall(r"^(f\d+\.foi?): ", out, re.M) or re.findall(r"Can't open file: (f\d+\.foi?)", err + out)
